@@ -448,6 +448,36 @@ pub fn run_e1(ctx: &Ctx, prop: P) -> i32 {
         );
         rep.push(&name, acc, it.stride == 1, fam.len());
     }
+    if prop == P::C08 {
+        // the interference family under completion orders, with and without availability hints
+        let q = ctx.tier == Tier::Quick;
+        let fam = F8;
+        let plans: Vec<AsyncPlan> = [None, Some(Hint::All)]
+            .into_iter()
+            .map(|hint| AsyncPlan { mask: K_CANDS | K_DEPS, pairs: false, hint, complete_cap: if q { 60 } else { 3000 }, dev_bound: if q { 1 } else { 2 }, dev_cap: if q { 60 } else { 3000 } })
+            .collect();
+        let opts = SweepOpts {
+            threads: threads(),
+            wall_limit_s: 120,
+            on_stuck: Box::new(|f, idx| {
+                eprintln!("NOTE: C08 async exploration stuck at {f}/{idx}");
+                None
+            }),
+            fam_no: 91,
+            stride: if q { 2 } else { 1 },
+            offset: if q { ctx.seed % 2 } else { 0 },
+        };
+        let acc = sweep(&fam, &opts, &|idx, case, acc| {
+            acc.count("cases");
+            for (pi, pl) in plans.iter().enumerate() {
+                e2::check_c08_async(case, pl, (91, idx, pi as u32), acc);
+            }
+        });
+        total_states += acc.get("cases");
+        total_transitions += acc.evaluations;
+        eprintln!("[C08] F8 under completion orders: {} cases, {} schedules, {:.1}s", acc.get("cases"), acc.get("schedules"), ctx.t0.elapsed().as_secs_f64());
+        rep.push("F8 x completion orders (controlled executor; hints as-is and All)", acc, !q, fam.len());
+    }
     if prop == P::C07 {
         // union requirements under every completion order of the candidate / dependency requests
         let q = ctx.tier == Tier::Quick;
